@@ -8,7 +8,10 @@ record per step; c02 judges the values, c06 the executions / hit tests / raises.
 """
 
 import asyncio
+import contextlib
 import functools
+import io
+import pickle
 import inspect
 import json
 import os
@@ -94,6 +97,16 @@ def specs(draw, max_steps=25, server=True):
                 src = draw(st.sampled_from(bank))
                 vals = list(src["vals"])
                 cand = [i for i, v in enumerate(vals) if v != "DEFAULT"]
+                named_kd = [(k, d) for k, d in sig if k not in ("va", "vk")]
+                with_default = [i for i, (k, d) in enumerate(named_kd) if d]
+                elsewhere = [v for v in vals if v != "DEFAULT"] + list(src["xpos"]) + [v for _, v in src["xkw"]]
+                if with_default and elsewhere and draw(st.integers(0, 3)) == 0:
+                    # a defaulted parameter toggles between its default and a value that already occurs elsewhere in the
+                    # call (another argument, a surplus positional, an extra keyword): f(1, 5, 7) vs f(1, 5, 7, scale=5)
+                    i = draw(st.sampled_from(with_default))
+                    vals[i] = "DEFAULT" if vals[i] != "DEFAULT" else draw(st.sampled_from(elsewhere))
+                    bank.append({"vals": vals, "xpos": src["xpos"], "xkw": src["xkw"]})
+                    continue
                 if len(cand) >= 2 and draw(st.integers(0, 4)) == 0:
                     # the same value bound to two parameters (equal objects, shared or distinct - see step["share"])
                     i, j = draw(st.lists(st.sampled_from(cand), min_size=2, max_size=2, unique=True))
@@ -150,8 +163,11 @@ def specs(draw, max_steps=25, server=True):
             step["ign_alt"] = draw(st.one_of(st.none(), value_specs()))
             # the same call is first made through a second Memory object with another cache directory (same process)
             step["elsewhere_first"] = draw(st.integers(0, 7)) == 0
+            # the call goes through an unpickled copy of the cached wrapper (what a worker process receives)
+            step["via_pickle"] = draw(st.integers(0, 5)) == 0
         steps.append(step)
-    return {"sigs": sigs, "ignore": ignores, "compress": draw(st.sampled_from([False, True, 1, 9])), "steps": steps}
+    return {"sigs": sigs, "ignore": ignores, "compress": draw(st.sampled_from([False, True, 1, 9])), "steps": steps,
+            "verbose": draw(st.sampled_from([0, 0, 0, 1, 2, 11]))}
 
 
 # ---- building calls -----------------------------------------------------------------
@@ -221,7 +237,7 @@ class Machine:
             MF.IGNORE["a_%d" % i] = body_ign
         import joblib
         self.joblib = joblib
-        self.mem = joblib.Memory(self.location, compress=spec["compress"], verbose=0)
+        self.mem = joblib.Memory(self.location, compress=spec["compress"], verbose=spec.get("verbose", 0))
         self.wrapped = {}
         self.mem2, self.wrapped2 = None, {}
         self.partials = {}
@@ -330,6 +346,9 @@ def run(spec, scratch, server=None):
             rec["expected"] = list(expected)
             rec["spelling"] = [len(args), sorted(kwargs), step["perm"], json.dumps(a_specs) + json.dumps(k_specs, sort_keys=True) + str(share)]
             wrapped = m.cached(fi, step["carrier"])
+            if step.get("via_pickle") and carrier == "f":
+                wrapped = pickle.loads(pickle.dumps(wrapped))
+                rec["via_pickle"] = True
             if step.get("elsewhere_first") and carrier not in ("pA", "pB"):
                 try:
                     w2 = m.cached_elsewhere(fi, carrier)
@@ -339,7 +358,9 @@ def run(spec, scratch, server=None):
                     rec["raised"] = "[other cache directory] %s: %s" % (type(e).__name__, str(e)[:300])
                     continue
             before = len(MF.EXEC_LOG)
+            quiet = contextlib.redirect_stdout(io.StringIO()) if spec.get("verbose") else contextlib.nullcontext()
             try:
+              with quiet:
                 if op == "call":
                     out = asyncio.run(wrapped(*args, **kwargs)) if is_async else wrapped(*args, **kwargs)
                     rec["value"] = list(out) if isinstance(out, tuple) else repr(out)
@@ -357,7 +378,8 @@ def run(spec, scratch, server=None):
                     r = server.ask({"scratch": m.scratch, "module": m.mod.__name__, "location": m.location,
                                     "compress": spec["compress"], "ignore": {k: sorted(v) for k, v in MF.IGNORE.items()},
                                     "jl_ignore": list(ignore), "f": fi, "carrier": step["carrier"],
-                                    "args": a_specs, "kwargs": k_specs, "perm": step["perm"] + 1})
+                                    "args": a_specs, "kwargs": k_specs, "perm": step["perm"] + 1,
+                                    "verbose": spec.get("verbose", 0), "via_pickle": bool(step.get("via_pickle"))})
                     rec.update(r)
             except Exception as e:
                 rec["raised"] = "%s: %s" % (type(e).__name__, str(e)[:300])
